@@ -866,6 +866,48 @@ def witnesses(ctx):
         probes_search(ctx, m2, "tri", {"kind": "tri", "gen": "witness"}, g2, pts2, e, name, npoints=6)
 
 
+def large_batches(ctx):
+    """any NUMBER of query points: one call with many thousands of points (beyond any internal block size) gives,
+    row for row, what the same points give in small batches - scalar, vector and tensor valued"""
+    import skfem
+    from skfem import Basis, ElementVector
+    rng = np.random.RandomState(ctx.seed + 14)
+    cases = [(skfem.MeshTri1().refined(2), ElementVector(skfem.ElementTriP1()), "ElementVector(ElementTriP1)"),
+             (skfem.MeshTri1().refined(2), skfem.ElementTriP2(), "ElementTriP2"),
+             (skfem.MeshQuad1().refined(1), ElementVector(skfem.ElementQuad1()), "ElementVector(ElementQuad1)"),
+             (skfem.MeshTet1().refined(1), ElementVector(skfem.ElementTetP1()), "ElementVector(ElementTetP1)"),
+             (skfem.MeshTri1().refined(1), skfem.ElementTriRT1(), "ElementTriRT1")]
+    for m, e, name in cases[:(3 if ctx.tier == "quick" else 5)]:
+        basis = Basis(m, e)
+        for npts in ((17000,) if ctx.tier == "quick" else (16385, 20000, 40000)):
+            # (off every facet of these meshes: coordinates k/256 + an offset that no sum or difference cancels)
+            x = (rng.randint(1, 255, size=(m.p.shape[0], npts))
+                 + np.array([0.37, 0.11, 0.23])[:m.p.shape[0], None]) / 256.0
+            y = rng.randint(-8, 8, size=basis.N) / 4.0
+            ctx.case({"large-batch": name, "npts": npts}, nontrivial=True)
+            ctx.count("probes:large-batch")
+            try:
+                big = basis.probes(x) @ y
+                ncomp = len(big) // npts
+                small = np.zeros_like(big).reshape(ncomp, npts)
+                step = 4000
+                for a in range(0, npts, step):
+                    part = basis.probes(x[:, a:a + step]) @ y
+                    small[:, a:a + step] = part.reshape(ncomp, -1)
+                err = float(np.abs(big.reshape(ncomp, npts) - small).max())
+                u = basis.interpolator(y)(x)
+                err2 = float(np.abs(np.asarray(u).reshape(ncomp, npts) - small).max())
+                if err > 1e-12 or err2 > 1e-12:
+                    viol(ctx, "probes / interpolator on a large batch of points differ from the same points in small "
+                         "batches", {"mesh": type(m).__name__ + " (library default, refined)", "element": name,
+                                     "npts": npts, "error_probes": err, "error_interpolator": err2},
+                         {"what": "probes-large-batch", "element": name.split("(")[0]})
+            except Exception as ex:
+                viol(ctx, "probes on a large batch raised " + exc_kind(ex), {"element": name, "npts": npts,
+                                                                             "err": repr(ex)},
+                     {"what": "probes-raise", "element": name})
+
+
 def parse_element(name):
     """'ElementVector(ElementTriP1)', 'ElementLinePp(3)', 'ElementDG(ElementTriP1)' -> element"""
     from skfem import element as E
@@ -1002,6 +1044,10 @@ def run(ctx):
                           {"what": "finder-batch-no-raise"})
     # ---- fixed witnesses of the defects this check found on the pinned tree (first inputs of every run)
     witnesses(ctx)
+    try:
+        large_batches(ctx)
+    except Exception as ex:
+        viol(ctx, "large-batch probing raised " + exc_kind(ex), {"err": repr(ex)}, {"what": "probes-raise"})
     # ---- main loop: meshes of all kinds
     nmesh = ctx.scale(400, 6000)
     rr = {k: rng.randrange(100) for k in meshes.FIRST_ORDER}
